@@ -655,7 +655,10 @@ def p_mp_createClass(p):
                 errcode = ce.status_code
 
                 if errcode == CIM_ERR_INVALID_NAMESPACE:
-                    assert not fixedNS  # Should not happen if we created it
+                    if fixedNS or p.parser.server is None:
+                        # Creating the namespace did not help, or there is
+                        # no WBEM server for creating it.
+                        raise
                     if p.parser.verbose:
                         p.parser.log(
                             _format("Creating namespace {0} (in MOF compiler)",
@@ -665,7 +668,10 @@ def p_mp_createClass(p):
                     continue  # Try again to create the class
 
                 if errcode == CIM_ERR_INVALID_SUPERCLASS:
-                    assert not fixedSuper  # Should not happen if we fixed it
+                    if fixedSuper or not cc.superclass:
+                        # Compiling the superclass did not help, or the
+                        # class has no superclass.
+                        raise
                     moffile = p.parser.mofcomp.find_mof(cc.superclass)
                     if not moffile:
                         raise MOFDependencyError(
@@ -918,33 +924,40 @@ def p_mp_setQualifier(p):
     try:
         p.parser.handle.SetQualifier(qualdecl, namespace=ns)
     except CIMError as ce:
-        if ce.status_code == CIM_ERR_INVALID_NAMESPACE:
-            if p.parser.verbose:
-                p.parser.log(
-                    _format("Creating namespace {0} (in MOF compiler)", ns))
-            p.parser.server.create_namespace(ns)
-            if p.parser.verbose:
-                p.parser.log(
-                    _format("Setting qualifier {0}:{1}", ns, qualdecl.name))
-            p.parser.handle.SetQualifier(qualdecl, namespace=ns)
-        elif ce.status_code == CIM_ERR_NOT_SUPPORTED:
-            if p.parser.verbose:
-                p.parser.log(
-                    _format("Qualifier {0}:{1} already exists. Deleting...",
-                            ns, qualdecl.name))
-            p.parser.handle.DeleteQualifier(qualdecl.name)
-            if p.parser.verbose:
-                p.parser.log(
-                    _format("Setting qualifier {0}:{1}", ns, qualdecl.name))
-            p.parser.handle.SetQualifier(qualdecl, namespace=ns)
-        else:
+        try:
+            if ce.status_code == CIM_ERR_INVALID_NAMESPACE and \
+                    p.parser.server is not None:
+                if p.parser.verbose:
+                    p.parser.log(
+                        _format("Creating namespace {0} (in MOF compiler)",
+                                ns))
+                p.parser.server.create_namespace(ns)
+                if p.parser.verbose:
+                    p.parser.log(
+                        _format("Setting qualifier {0}:{1}",
+                                ns, qualdecl.name))
+                p.parser.handle.SetQualifier(qualdecl, namespace=ns)
+            elif ce.status_code == CIM_ERR_NOT_SUPPORTED:
+                if p.parser.verbose:
+                    p.parser.log(
+                        _format("Qualifier {0}:{1} already exists. "
+                                "Deleting...", ns, qualdecl.name))
+                p.parser.handle.DeleteQualifier(qualdecl.name)
+                if p.parser.verbose:
+                    p.parser.log(
+                        _format("Setting qualifier {0}:{1}",
+                                ns, qualdecl.name))
+                p.parser.handle.SetQualifier(qualdecl, namespace=ns)
+            else:
+                raise ce
+        except CIMError as ce2:
             raise MOFRepositoryError(
                 msg=_format(
                     "Cannot compile qualifier declaration {0!A} because the "
                     "CIM repository returned an error for SetQualifier",
                     qualdecl.name),
                 parser_token=p,
-                cim_error=ce)
+                cim_error=ce2)
     p.parser.qualcache[ns][qualdecl.name] = qualdecl
 
 
@@ -1145,7 +1158,8 @@ def p_qualifier(p):
         try:
             quals = p.parser.handle.EnumerateQualifiers(namespace=ns)
         except CIMError as ce:
-            if ce.status_code != CIM_ERR_INVALID_NAMESPACE:
+            if ce.status_code != CIM_ERR_INVALID_NAMESPACE or \
+                    p.parser.server is None:
                 raise MOFRepositoryError(
                     msg=_format(
                         "Cannot compile element specifying qualifier {0!A} "
